@@ -195,3 +195,13 @@ Example c04_password_capitalisations :
   lower_ascii (str "True") = str "true" /\ lower_ascii (str "TRUE") = str "true" /\ lower_ascii (str "tRuE") = str "true"
   /\ lower_ascii (str "False") = str "false" /\ lower_ascii (str "FALSE") = str "false".
 Proof. exact capitalisations. Qed.
+
+(* the tournament flag of GameSpy 1: absent means true; the word in any capitalisation; anything else is a parse error *)
+Theorem c04_tournament_flag : forall (m : vmap),
+  (vm_get (str "tournament") m = None -> tournament_of m = Ok (true, map_remove (str "tournament") m))
+  /\ (forall v, vm_get (str "tournament") m = Some v ->
+        (lower_ascii v = str "true" -> tournament_of m = Ok (true, map_remove (str "tournament") m))
+        /\ (lower_ascii v = str "false" -> tournament_of m = Ok (false, map_remove (str "tournament") m))
+        /\ (parse_bool (lower_ascii v) = None -> tournament_of m = Err TypeParse)).
+Proof. exact tournament_spec. Qed.
+Print Assumptions c04_tournament_flag.
